@@ -137,6 +137,12 @@ class PanicScan:
                     if c.res is None and c.deff in self.prog.bodies:
                         continue
                     mp = callee_may_panic(c)
+                    if mp is True and c.method in ("expect", "unwrap") and re.search(r"Result::<usize, std::num::TryFromIntError>", c.def_args or "") and t.args:
+                        # `usize::try_from(x: u32 | u16 | u8).expect(..)`: infallible on every target the crate supports (pointer width >= 32, the same
+                        # assumption as the exemption of HpoTermId::to_usize)
+                        srcs_ = [a for a in self._pvn_of(b, t.args[0]) if a[0] == "call" and a[3] == b.id and re.search(r"<usize as std::convert::TryFrom<(u32|u16|u8)>>::try_from|<(u32|u16|u8) as std::convert::TryInto<usize>>::try_into", a[2] or "")]
+                        if srcs_:
+                            continue
                     if mp is True and c.trait in ("std::ops::Index", "std::ops::IndexMut") and len(t.args) == 2 and re.search(r"Index(Mut)?<usize>", c.def_args or ""):
                         why_ = self._index_guarded(b, bi, t)
                         if why_:
